@@ -291,3 +291,16 @@ def conclude(agg):
 def coverage_extra(agg):
     c = agg["counters"]
     return {"parsed_per_dialect": {k[7:]: c[k] for k in sorted(c) if k.startswith("parsed:")}}
+
+
+def replay(rec):
+    from ..runner import ReplayCtx
+
+    ctx = ReplayCtx()
+    case = rec["case"]
+    d = None if case.get("dialect") in (None, "base") else case["dialect"]
+    if "format" in case:
+        check_format(ctx, case["sql"], case["format"], True, d, "replay")
+    else:
+        check_statement(ctx, case["sql"], d, "replay")
+    return ctx.report()
